@@ -47,6 +47,8 @@ func sized(b string, q int) int {
 		return q - 1
 	case "long":
 		return q + 1
+	case "huge": // a result whose length equals the quantity modulo 2^16
+		return q + 65536
 	}
 	return 0
 }
@@ -125,7 +127,7 @@ func (h *scriptedHandler) HandleInputRegisters(req *modbus.InputRegistersRequest
 	return h.regs(int(req.Addr), int(req.Quantity))
 }
 
-var behaviours = []string{"ok", "ok", "ok", "ok", "short", "long", "nil",
+var behaviours = []string{"ok", "ok", "ok", "ok", "short", "long", "huge", "nil",
 	"e:ErrIllegalFunction", "e:ErrIllegalDataAddress", "e:ErrIllegalDataValue", "e:ErrServerDeviceFailure",
 	"e:ErrAcknowledge", "e:ErrServerDeviceBusy", "e:ErrMemoryParityError", "e:ErrGWPathUnavailable",
 	"e:ErrGWTargetFailedToRespond", "e:ErrProtocolError", "e:ErrBadCRC", "e:ErrRequestTimedOut", "e:io-other"}
